@@ -437,7 +437,9 @@ def resolve_diff_args(args):
         # Three or more
         if not is_gitref(base):
             paths = [base, remote] + paths
-            base = remote = None
+            # Note: None would be taken as the working tree by changed_notebooks
+            base = 'HEAD'
+            remote = None
         elif is_gitref(base) and not is_gitref(remote):
             paths = [remote] + paths
             remote = None
